@@ -547,6 +547,11 @@ def st_models(fields):
 
 class ExecS(ExecB):
     cut_loops = True
+    # loops that only touch locals are abstracted: at the loop head every local the body assigns or
+    # lends out mutably is havoc'd, the body is executed once from that arbitrary-iteration state, and
+    # back edges end the path (over-approximation: a sat verdict on such a path must replay natively
+    # to count, otherwise that exit is reported as not decided)
+    havoc_loops = True
 
     def call(self, st, callee, args, dest_ty, depth):
         for (rx, handler) in self.models:
@@ -624,13 +629,24 @@ def run_state_kernels(fns, wrapping, fields, want):
             if verdict in ("unsat", "unsat1"):
                 res["unsat"] += 1
             elif verdict == "sat":
-                small = [f"(<= {t} 8)" for n, t in ctx.inputs.items() if n.split("_")[-1] in ("cols", "rows", "len")]
-                rs, outm = mirsmt.solve(mirsmt.smt_script(sym, base + small, get_model=names_in), "z3")
-                wit = parse_model(outm if rs == "sat" else model, ctx.inputs)
+                # prefer a witness the native twin can run: everything small, else one small dimension
+                # (the fill loops of insert_row / insert_col run num_cols / num_rows times)
+                dims = {n: t for n, t in ctx.inputs.items() if n.split("_")[-1] in ("cols", "rows", "len")}
+                prefs = [[f"(<= {t} 8)" for t in dims.values()]]
+                prefs += [[f"(<= {t} 8)" for n, t in dims.items() if n.endswith(k)] for k in (("rows", "cols") if "col" in meth else ("cols", "rows"))]
+                wit = None
+                for extra in prefs:
+                    rs, outm = mirsmt.solve(mirsmt.smt_script(sym, base + extra, get_model=names_in), "z3")
+                    if rs == "sat":
+                        wit = parse_model(outm, ctx.inputs)
+                        break
+                if wit is None:
+                    wit = parse_model(model, ctx.inputs)
                 rep = None
                 if meth in STATE_TWINS:
                     rep = (f"b_state_{STATE_TWINS[meth]}", [wit.get("cols", 0), wit.get("rows", 0), wit.get("arg_2", 0)])
                 res["sat"].append({"function": name, "path_kind": cls, "msg": o.msg or (o.state.events[-1][1] if o.state.events else ""), "witness": wit,
+                                   "abstracted": any(e[0] == "abstracted" for e in o.state.events),
                                    "post_state": {"num_cols": C[:80], "num_rows": R[:80], "len": L[:80]}, "solvers": verdicts, "replay": rep})
             else:
                 res["inconclusive"].append(f"{name}: solver verdicts {verdicts} on a {cls} exit")
